@@ -10,11 +10,13 @@ from . import _weaver_ops as W
 from .. import gen, threads
 
 
-def rfa_jobs(rng, k):
+def rfa_jobs(rng, k, idx=None):
     out = []
     shared_groups = 0
     while len(out) < k:
         strat = R.ALL[int(rng.integers(0, 6))]
+        if idx is not None and shared_groups < 2:          # the shared objects walk through all six strategies
+            strat = R.ALL[(2 * idx + shared_groups) % 6]
         n = int(rng.choice([4, 8, 16, 32]))
         kw, _a = R.gen_params(rng, strat, n)
         x, y, _m = R.gen_series(rng, 8, 60, ties_share=0.3)
@@ -211,7 +213,7 @@ def run_case(ctx, families, idx, cold=False):
     fam = families[int(rng.integers(0, len(families)))]
     if cold and fam == "weaver":        # that family tries its programs out while generating them
         fam = "weaver_cold"
-    jobs = FAMILIES[fam](rng, 8)
+    jobs = FAMILIES[fam](rng, 8, **({"idx": idx} if fam == "rfa" else {}))
     if len(jobs) < 2:
         return
     ctx.judged()
